@@ -22,7 +22,8 @@ KINDS = dyn.DRIVERS + ["run_incremental", "run_all"]
 
 @st.composite
 def cases(draw, tier="quick"):
-    case = draw(dyn.graphs(max_nodes=12 if tier == "quick" else 16, parts=draw(st.sampled_from([1, 1, 2, 3]))))
+    case = draw(dyn.graphs(max_nodes=12 if tier == "quick" else 16, parts=draw(st.sampled_from([1, 1, 2, 3])),
+                            none_seeds=True))
     case["driver"] = draw(dyn.driver(len(case["nodes"]), kinds=KINDS))
     return case
 
@@ -104,8 +105,11 @@ def check(case):
                         raise Violation("node %d was attempted before its dependency %d had been attempted" % (i, j),
                                         node=i, dependency=j)
         for i in seeded:
-            v = broker.get(comps[i])
-            if v != ("seed", i):
+            want = dyn.seed_value(case, i)
+            if comps[i] not in broker:
+                raise Violation("seeded value of node %d disappeared" % i, node=i)
+            v = broker[comps[i]]
+            if v != want or type(v) is not type(want):
                 raise Violation("seeded value of node %d was replaced by %r" % (i, v), node=i)
         # a stored value can never be overwritten
         for c in list(broker.instances)[:3]:
